@@ -14,6 +14,12 @@ Driver for C17.  Operations (one per line):
                              prints `== != < > <= >=` (`-` = not offered by the type), hash agreement, extras
 * `rels <type> <maxlen> <a>` — digest of `rel type a b` for every b of the type's domain
                              (valid encodings of length ≤ maxlen with components in {0,1,2})
+* `relr <type> <ra> <rb> <a> <b>`, `relsr <type> <maxlen> <ra> <rb> <a>` — the same with the two values built along
+                             route ra / rb of the harness (constructor, assignment over another value, element-wise
+                             writes, erase after insert, …); the model is a value model, the routes do not matter
+* `self <type> <ra> <a>`, `selfs <type> <maxlen> <ra>` — the SAME object on both sides
+* `relb <type> <base> <pos> <kind>` — digest of `rel` for all pairs (u, v) of boundary values (kind 0: 16-bit, 1: 32-bit)
+                             put at position pos of base
 * `tri <type> <maxlen> <a>`  — counts, over all b, c of the domain, violations of: `==` symmetric/transitive,
                              `<` transitive, incomparability transitive, `<` compatible with `==`
 * `tri1 <type> <a> <b> <c>`  — the same flags for one triple
@@ -22,8 +28,10 @@ Driver for C17.  Operations (one per line):
 Value encodings: opt `-`|x; eith k,x (k=0 failure, 1 success); var i,x (i<3); tup/arr/earr/vec3 x,y,z;
 rec/vec2/dim2 x,y; sti/recu x; mat22 a,b,c,d (row-major); box2 px,py,sx,sy; sph2 ox,oy,r;
 bf3 b0,b1,b2,route (route 0 initializer list, 1 `~` of the complement, 2 `~~`); grid w,h,elements (w*h, row-major);
-tree pre-order of value,number-of-children; rv elements; ref i (i-th object of an array);
-sp i,o (pointer to the i-th object, owner o < 2).
+grid1 w,elements; grid3 w,h,d,elements; vec1 x; vec4 x,y,z,w; dim3 x,y,z; mat23 six cells row-major; box3 p,p,p,s,s,s;
+sph3 o,o,o,r; tree pre-order of value,number-of-children; rv elements; ref i (i-th object of an array);
+sp i,o (o < 2: pointer to the i-th object, owner o; o = 2: null stored pointer — i = 0 no owner (moved-from), i = 1, 2 owner i-1);
+unit `-`; itr i,j (range from the i-th to the j-th element of an array, i ≤ j ≤ 2).
 -/
 namespace Fcppt.C17.Drv
 open Fcppt.Proto
@@ -95,6 +103,7 @@ def stsDigest (t : IntTy) (a lo hi : Int) : String := digestRange lo hi (stLine 
 inductive Ty where
   | opt | eith | var | tup | arr | recd | sti | vec2 | vec3 | dim2 | mat22 | box2 | sph2 | bf3 | earr
   | grid | tree | rv | ref | sp | recu
+  | vec1 | vec4 | dim3 | mat23 | box3 | sph3 | grid1 | grid3 | unit | itr
   deriving DecidableEq, Repr
 
 def tyName : String → Option Ty
@@ -103,6 +112,8 @@ def tyName : String → Option Ty
   | "mat22" => some .mat22 | "box2" => some .box2 | "sph2" => some .sph2 | "bf3" => some .bf3 | "earr" => some .earr
   | "grid" => some .grid | "tree" => some .tree | "rv" => some .rv | "ref" => some .ref | "sp" => some .sp
   | "recu" => some .recu
+  | "vec1" => some .vec1 | "vec4" => some .vec4 | "dim3" => some .dim3 | "mat23" => some .mat23 | "box3" => some .box3
+  | "sph3" => some .sph3 | "grid1" => some .grid1 | "grid3" => some .grid3 | "unit" => some .unit | "itr" => some .itr
   | _ => none
 
 def ieq (a b : Int) : Bool := a == b
@@ -135,13 +146,43 @@ def toTree (l : List Int) : Option (Tree Int) :=
   | some (t, []) => some t
   | _ => none
 
-def toGrid (l : List Int) : Option (Grid Int 2) :=
-  match l with
-  | w :: h :: rest =>
-    if 0 ≤ w ∧ 0 ≤ h ∧ rest.length = w.toNat * h.toNat then
-      some ⟨⟨#[w.toNat, h.toNat], rfl⟩, rest⟩
+/-- `n` extents followed by the elements in iteration order (x runs fastest) -/
+def toGrid (n : Nat) (l : List Int) : Option (Grid Int n) :=
+  let ext := (l.take n).map Int.toNat
+  let rest := l.drop n
+  if h : ext.toArray.size = n then
+    if (l.take n).all (fun x => decide (0 ≤ x)) && rest.length == ext.foldl (· * ·) 1 then some ⟨⟨ext.toArray, h⟩, rest⟩
     else none
-  | _ => none
+  else none
+
+def mvecObs (n : Nat) (a b : List Int) (withMix : Bool) : Option (Bool × Bool × Bool × Bool × Bool × Bool × Bool × String) :=
+  match toVec n a, toVec n b with
+  | some x, some y =>
+    let e := MVec.eq ieq x y
+    let b01' := fun (c : Bool) => if c then "1" else "0"
+    let mix := if withMix then
+        s!" mix={b01' e}{b01' (MVec.ne ieq x y)}{b01' (MVec.eq ieq y x)}{b01' (MVec.ne ieq y x)}" ++
+        (if e then b01' (rangeHash (fun p q => p * 31 + q + 7) (fun (v : Int) => (v + 1000).toNat) x.toList ==
+                         rangeHash (fun p q => p * 31 + q + 7) (fun (v : Int) => (v + 1000).toNat) y.toList) else "-") ++
+        s!" mixord={b01' (MVec.lt ilt x y)}{b01' (MVec.gt ilt x y)}{b01' (MVec.le ilt x y)}{b01' (MVec.ge ilt x y)}" ++
+        s!"{b01' (MVec.lt ilt y x)}{b01' (MVec.gt ilt y x)}{b01' (MVec.le ilt y x)}{b01' (MVec.ge ilt y x)} conv=1"
+      else ""
+    some (e, MVec.ne ieq x y, MVec.lt ilt x y, MVec.gt ilt x y, MVec.le ilt x y, MVec.ge ilt x y,
+          MVec.hash (fun p q => p * 31 + q + 7) (fun (v : Int) => (v + 1000).toNat) x ==
+          MVec.hash (fun p q => p * 31 + q + 7) (fun (v : Int) => (v + 1000).toNat) y, mix)
+  | _, _ => none
+
+/-- a box given as position and size (the `(pos, size)` constructor) -/
+def toBox (n : Nat) (l : List Int) : Option (Box Int n) :=
+  match toVec n (l.take n), toVec n (l.drop n) with
+  | some p, some s =>
+    -- pos + size must be an `int` (the class stores the maximum)
+    if (List.range n).all (fun i => IntTy.i32.inRange (l.getD i 0 + l.getD (n + i) 0)) && l.length = 2 * n then
+      some (Box.ofPosSize (· + ·) p s)
+    else none
+  | _, _ => none
+
+def isub (a b : Int) : Int := a - b
 
 /-- the bitfield over a 3-enumerator enum in 8-bit words, built along `route` -/
 def toBf (l : List Int) : Option (C10.Words 8) :=
@@ -230,43 +271,33 @@ def relObs (ty : Ty) (a b : List Int) : Except String Obs := do
     match a, b with
     | [x], [y] => pure { eq := Recursive.eq ieq x y, ne := Recursive.ne ieq x y }
     | _, _ => bad
-  | .vec2 | .dim2 =>
-    match toVec 2 a, toVec 2 b with
+  | .vec1 | .vec2 | .vec3 | .vec4 | .dim2 | .dim3 =>
+    let n := match ty with | .vec1 => 1 | .vec2 | .dim2 => 2 | .vec3 | .dim3 => 3 | _ => 4
+    -- vec2: the same comparisons against the right operand held in a matrix row view (storage does not matter)
+    match mvecObs n a b (ty == .vec2) with
+    | some (e, ne, lt, gt, le, ge, he, mix) =>
+      pure { eq := e, ne := ne, lt := some lt, gt := some gt, le := some le, ge := some ge, hash := true, hashEq := he, extra := mix }
+    | none => bad
+  | .mat22 | .mat23 =>
+    let n := if ty == .mat22 then 4 else 6
+    match mvecObs n a b false with
+    | some (e, ne, _, _, _, _, he, _) => pure { eq := e, ne := ne, hash := true, hashEq := he }
+    | none => bad
+  | .box2 | .box3 =>
+    let n := if ty == .box2 then 2 else 3
+    match toBox n a, toBox n b with
     | some x, some y =>
-      -- vec2: the same comparisons against the right operand held in a matrix row view (storage does not matter)
-      let e := MVec.eq ieq x y
-      let mix := if ty == .vec2 then
-          s!" mix={b01 e}{b01 (MVec.ne ieq x y)}{b01 (MVec.eq ieq y x)}{b01 (MVec.ne ieq y x)}" ++
-          (if e then b01 (MVec.hash hcD hD x == MVec.hash hcD hD y) else "-")
-        else ""
-      pure { eq := e, ne := MVec.ne ieq x y, lt := some (MVec.lt ilt x y), gt := some (MVec.gt ilt x y),
-             le := some (MVec.le ilt x y), ge := some (MVec.ge ilt x y), hash := true,
-             hashEq := MVec.hash hcD hD x == MVec.hash hcD hD y, extra := mix }
+      let comps := x.min.toList == y.min.toList && x.max.toList == y.max.toList &&
+        (x.size isub).toList == (y.size isub).toList
+      pure { eq := Box.eq isub ieq x y, ne := Box.ne isub ieq x y, lt := some (Box.lt isub ilt x y), extra := s!" comps={b01 comps}" }
     | _, _ => bad
-  | .vec3 =>
-    match toVec 3 a, toVec 3 b with
-    | some x, some y =>
-      pure { eq := MVec.eq ieq x y, ne := MVec.ne ieq x y, lt := some (MVec.lt ilt x y), gt := some (MVec.gt ilt x y),
-             le := some (MVec.le ilt x y), ge := some (MVec.ge ilt x y), hash := true,
-             hashEq := MVec.hash hcD hD x == MVec.hash hcD hD y }
-    | _, _ => bad
-  | .mat22 =>
-    match toVec 4 a, toVec 4 b with
-    | some x, some y =>
-      pure { eq := MVec.eq ieq x y, ne := MVec.ne ieq x y, hash := true, hashEq := MVec.hash hcD hD x == MVec.hash hcD hD y }
-    | _, _ => bad
-  | .box2 =>
-    match toVec 2 (a.take 2), toVec 2 (a.drop 2), toVec 2 (b.take 2), toVec 2 (b.drop 2) with
-    | some p, some s, some q, some u =>
-      let x : Box Int 2 := ⟨p, s⟩; let y : Box Int 2 := ⟨q, u⟩
-      pure { eq := Box.eq ieq x y, ne := Box.ne ieq x y, lt := some (Box.lt ilt x y) }
-    | _, _, _, _ => bad
-  | .sph2 =>
-    match a, b with
-    | [a0, a1, ar], [b0, b1, br] =>
-      let x : Sphere Int 2 := ⟨⟨#[a0, a1], rfl⟩, ar⟩; let y : Sphere Int 2 := ⟨⟨#[b0, b1], rfl⟩, br⟩
+  | .sph2 | .sph3 =>
+    let n := if ty == .sph2 then 2 else 3
+    match toVec n (a.take n), toVec n (b.take n), a.drop n, b.drop n with
+    | some ao, some bo, [ar], [br] =>
+      let x : Sphere Int n := ⟨ao, ar⟩; let y : Sphere Int n := ⟨bo, br⟩
       pure { eq := Sphere.eq ieq x y, ne := Sphere.ne ieq x y }
-    | _, _ => bad
+    | _, _, _, _ => bad
   | .bf3 =>
     match toBf a, toBf b with
     | some x, some y =>
@@ -274,8 +305,9 @@ def relObs (ty : Ty) (a b : List Int) : Except String Obs := do
       pure { eq := C10.eq x y, ne := C10.ne x y, hash := true, hashEq := C10.hash hcD hw x == C10.hash hcD hw y,
              extra := s!" m={(C10.members 3 x).foldl (fun m i => m + 2 ^ i) 0},{(C10.members 3 y).foldl (fun m i => m + 2 ^ i) 0}" }
     | _, _ => bad
-  | .grid =>
-    match toGrid a, toGrid b with
+  | .grid | .grid1 | .grid3 =>
+    let n := match ty with | .grid1 => 1 | .grid => 2 | _ => 3
+    match toGrid n a, toGrid n b with
     | some x, some y =>
       match Grid.eq ieq x y, Grid.ne ieq x y with
       | .ok e, .ok n =>
@@ -286,7 +318,12 @@ def relObs (ty : Ty) (a b : List Int) : Except String Obs := do
     | _, _ => bad
   | .tree =>
     match toTree a, toTree b with
-    | some x, some y => pure { eq := Tree.eq ieq x y, ne := Tree.ne ieq x y }
+    | some x, some y =>
+      -- the children of x compared in place with y
+      let kids := match x with | .node _ cs => cs
+      let sub := kids.foldl (fun acc c =>
+        acc ++ b01 (Tree.eq ieq c y) ++ b01 (Tree.eq ieq y c) ++ b01 (Tree.ne ieq c y) ++ b01 (Tree.eq ieq c x)) ""
+      pure { eq := Tree.eq ieq x y, ne := Tree.ne ieq x y, extra := " sub=" ++ sub }
     | _, _ => bad
   | .rv =>
     match RawVec.eq ieq a b, RawVec.ne ieq a b with
@@ -301,17 +338,32 @@ def relObs (ty : Ty) (a b : List Int) : Except String Obs := do
       if 0 ≤ i ∧ i < 3 ∧ 0 ≤ j ∧ j < 3 then
         let x : Ref := ⟨i.toNat⟩; let y : Ref := ⟨j.toNat⟩
         pure { eq := Ref.eq x y, ne := Ref.ne x y, lt := some (Ref.lt x y), hash := true,
-               hashEq := Ref.hash id x == Ref.hash id y }
+               hashEq := Ref.hash id x == Ref.hash id y,
+               extra := s!" const={b01 (Ref.eq x y)}{b01 (Ref.ne x y)}{b01 (Ref.lt x y)}1" }
       else bad
     | _, _ => bad
   | .sp =>
+    -- i,o with o < 2: stored pointer = address of object i (addresses 1, 2, 3), owner o;
+    -- o = 2: null stored pointer (address 0, below every object), owner 2 + i (i = 0: no owner at all)
+    let dec : List Int → Option SPtr := fun l => match l with
+      | [i, o] => if 0 ≤ i ∧ i < 3 ∧ 0 ≤ o ∧ o < 3 then
+          some (if o = 2 then ⟨0, 2 + i.toNat⟩ else ⟨i.toNat + 1, o.toNat⟩) else none
+      | _ => none
+    match dec a, dec b with
+    | some x, some y =>
+      pure { eq := SPtr.eq x y, ne := SPtr.ne x y, lt := some (SPtr.lt x y), hash := true,
+             hashEq := SPtr.hash id x == SPtr.hash id y }
+    | _, _ => bad
+  | .unit =>
     match a, b with
-    | [i, o], [j, p] =>
-      if 0 ≤ i ∧ i < 3 ∧ 0 ≤ j ∧ j < 3 ∧ 0 ≤ o ∧ o < 2 ∧ 0 ≤ p ∧ p < 2 then
-        let x : SPtr := ⟨i.toNat, o.toNat⟩; let y : SPtr := ⟨j.toNat, p.toNat⟩
-        pure { eq := SPtr.eq x y, ne := SPtr.ne x y, lt := some (SPtr.lt x y), hash := true,
-               hashEq := SPtr.hash id x == SPtr.hash id y }
-      else bad
+    | [], [] => pure { eq := UnitT.eq () (), ne := UnitT.ne () () }
+    | _, _ => bad
+  | .itr =>
+    let dec : List Int → Option (Int × Int) := fun l => match l with
+      | [i, j] => if 0 ≤ i ∧ i ≤ j ∧ j ≤ 2 then some (i, j) else none
+      | _ => none
+    match dec a, dec b with
+    | some x, some y => pure { eq := IterRange.eq ieq x y, ne := IterRange.ne ieq x y }
     | _, _ => bad
 
 def relLine (ty : Ty) (a b : List Int) : String :=
@@ -337,6 +389,22 @@ def relsDigest (ty : Ty) (maxlen : Nat) (a : List Int) : String :=
   let d := domain ty maxlen
   let h := d.foldl (fun h b => fnv h (relLine ty a b)) fnvInit
   s!"D n={d.length} {hex64 h}"
+
+/-- the same object on both sides: in the value model, the value against itself -/
+def selfsDigest (ty : Ty) (maxlen : Nat) : String :=
+  let d := domain ty maxlen
+  let h := d.foldl (fun h a => fnv h (relLine ty a a)) fnvInit
+  s!"D n={d.length} {hex64 h}"
+
+def b16 : List Int := [-32768, -32767, -257, -256, -129, -128, -1, 0, 1, 127, 128, 255, 256, 32766, 32767]
+def b32 : List Int := [-2147483648, -2147483647, -16777217, -16777216, -65537, -65536, -32769, -32768, -1, 0, 1,
+                       32767, 32768, 65535, 65536, 16777216, 16777217, 2147483646, 2147483647]
+
+/-- all pairs (u, v) of boundary values at position `pos`, the other components as in `base` -/
+def relbDigest (ty : Ty) (base : List Int) (pos : Nat) (kind : Nat) : String :=
+  let vals := if kind = 0 then b16 else b32
+  let h := vals.foldl (fun h u => vals.foldl (fun h v => fnv h (relLine ty (base.set pos u) (base.set pos v))) h) fnvInit
+  "D " ++ hex64 h
 
 /-- (eq, lt) of a pair as the model sees them; `lt = none` when not offered -/
 def eqLt (ty : Ty) (a b : List Int) : Bool × Option Bool :=
@@ -426,6 +494,29 @@ def handle (toks : List String) : String :=
     match tyName ty, parseIntList a, parseIntList b with
     | some ty, some a, some b => relLine ty a b
     | _, _, _ => "bad-op"
+  | ["relr", ty, ra, rb, a, b] =>
+    -- the routes say how the harness builds the two values; the value does not depend on them
+    match tyName ty, ra.toNat?, rb.toNat?, parseIntList a, parseIntList b with
+    | some ty, some ra, some rb, some a, some b => if ra ≤ 7 && rb ≤ 7 then relLine ty a b else "bad-op"
+    | _, _, _, _, _ => "bad-op"
+  | ["relsr", ty, ml, ra, rb, a] =>
+    match tyName ty, ml.toNat?, ra.toNat?, rb.toNat?, parseIntList a with
+    | some ty, some ml, some ra, some rb, some a =>
+      if valid ty a && ml ≤ 8 && ra ≤ 7 && rb ≤ 7 then relsDigest ty ml a else "bad-op"
+    | _, _, _, _, _ => "bad-op"
+  | ["self", ty, ra, a] =>
+    match tyName ty, ra.toNat?, parseIntList a with
+    | some ty, some ra, some a => if ra ≤ 7 then relLine ty a a else "bad-op"
+    | _, _, _ => "bad-op"
+  | ["selfs", ty, ml, ra] =>
+    match tyName ty, ml.toNat?, ra.toNat? with
+    | some ty, some ml, some ra => if ml ≤ 8 && ra ≤ 7 then selfsDigest ty ml else "bad-op"
+    | _, _, _ => "bad-op"
+  | ["relb", ty, base, pos, kind] =>
+    match tyName ty, parseIntList base, pos.toNat?, kind.toNat? with
+    | some ty, some base, some pos, some kind =>
+      if valid ty base && pos < base.length && kind ≤ 1 then relbDigest ty base pos kind else "bad-op"
+    | _, _, _, _ => "bad-op"
   | ["rels", ty, ml, a] =>
     match tyName ty, ml.toNat?, parseIntList a with
     | some ty, some ml, some a => if valid ty a && ml ≤ 8 then relsDigest ty ml a else "bad-op"
